@@ -60,8 +60,19 @@ def _walk_tests(tests, loaded, out, pos):
         _walk_tests(sub, loaded, out, "testlist" if len(sub) > 1 else pos)
 
 
+_REUSED = []
+
+
+def reused_parser():
+    """One long-lived Parser per worker process: gating must not depend on
+    what the same Parser object parsed before."""
+    if not _REUSED:
+        _REUSED.append(impl.Parser())
+    return _REUSED[0]
+
+
 def forward(text):
-    o = impl.parse_outcome(text)
+    o = impl.parse_outcome(text, parser=reused_parser())
     if o.verdict is not True or o.exc is not None:
         return "rejected", [], []
     r = analyze(text)
@@ -160,7 +171,7 @@ def converse_case(text, expected_ext=None):
     if r.verdict != INVALID or r.reason != "extension-not-loaded":
         return "skip", None
     ext = r.info
-    o = impl.parse_outcome(text)
+    o = impl.parse_outcome(text, parser=reused_parser())
     if o.exc is not None:
         return "skip", None  # C02's business
     tok = r.tokens[r.bad]
@@ -253,6 +264,7 @@ def main(tier, seed, t0):
         raise core.HarnessError("generator classes empty: %s" % missing)
     col.exhaustive = False
     return core.finish(PROP, tier, seed, "exploration", col, RULE, t0, sys.modules[MOD],
-                       assumptions=["frozen extension table vf/refsieve/table.py (13 extensions; command, tag and match-type bindings from the RFCs)",
+                       assumptions=["every worker process parses all its inputs with one long-lived Parser object (a fresh Parser per input would hide extensions leaking from one parse to the next)",
+                                    "frozen extension table vf/refsieve/table.py (13 extensions; command, tag and match-type bindings from the RFCs)",
                                     "the first missing extension is determined by the reference recogniser's token order"],
                        extra={"bounds": pspace.BOUNDS[tier]})
